@@ -12,6 +12,10 @@ impl<T: HasName + Sync + 'static> HasName for ::entrait::Impl<T> where T: NotApp
 pub trait NotApp {}
 impl NotApp for Conc {}
 pub fn assert_output<R, F: ::core::future::Future<Output = R>>(_: &F) {}
+pub trait HasLt<'x> { fn lt(&self, s: &'x str) -> &'x str; }
+impl<'x> HasLt<'x> for ::entrait::Impl<App> { fn lt(&self, s: &'x str) -> &'x str { s } }
+pub trait HasOut { type Out; }
+impl HasOut for u8 { type Out = u8; }
 """
 
 TY = {"owned": "String", "ref": "&str", "reflife": "&'a str", "implTrait": "impl ::core::fmt::Debug + Send", "array": "[u8; N]"}
@@ -36,9 +40,17 @@ def fn_text(f, name, vis=""):
     params = []
     if "array" in f["params"] and f.get("cfirst"):
         gens.append("const N: usize")
+    dvar = f.get("dvar", "plain")
     if d["kind"] == "generic":
-        gens.append("D: crate::HasName + Sync" if need_name else "D: Sync")
-        params.append(f"deps: {amp}D")
+        db = "crate::HasName + Sync" if need_name else "Sync"
+        if dvar == "hrtb":
+            gens.append("D")
+            where.append(f"for<'x> D: crate::HasLt<'x> + {db}")
+        elif dvar == "relaxed":
+            gens.append(f"D: ?Sized + {db}")
+        else:
+            gens.append(f"D: {db}")
+        params.append({"paren": f"deps: ({amp}D)", "group": "deps: $t"}.get(dvar, f"deps: {amp}D"))
     elif d["kind"] == "implTrait":
         params.append(f"deps: {amp}" + ("(impl crate::HasName + Sync)" if amp else "impl crate::HasName + Sync"))
     elif d["kind"] == "concrete":
@@ -50,6 +62,10 @@ def fn_text(f, name, vis=""):
             if f["bound"] == "where":
                 gens.append(g)
                 where.append(f"{g}: {b}")
+            elif f["bound"] == "whereassoc":
+                gens.append(g)
+                where.append(f"{g}: {b} + crate::HasOut")
+                where.append(f"{g}::Out: Send")
             else:
                 gens.append(f"{g}: {b}")
             params.append(f"p{j}: {g}")
@@ -143,7 +159,11 @@ def render(c):
     nd = (", no_deps" if f["deps"]["kind"] == "nodeps" else "") + c.get("xopt", "")
     out = ["#[allow(unused_imports)] use crate::HasName as _;\n#[allow(unused_imports)] use crate::Conc;\n"]
     if mode == "fn":
-        out.append(f"#[::entrait::entrait(pub T{nd})]\n{fn_text(f, 'f')}\n")
+        item = f"#[::entrait::entrait(pub T{nd})]\n{fn_text(f, 'f')}\n"
+        if f.get("dvar") == "group":
+            # the dependency type reaches the signature through a `$t:ty` fragment
+            item = f"macro_rules! mk {{ ($t:ty) => {{ {item} }} }}\nmk!(&D);\n"
+        out.append(item)
         out.append(witness(f, "f", f"<{recv_ty} as T{targs}>::f", recv_ty, recv_mk, 1))
     elif mode.startswith("mod"):
         body = "\n".join("    " + fn_text(g, f"f{k}", vis="pub ") for k, g in enumerate(fns, start=1))
